@@ -1444,7 +1444,7 @@ run_plan(const Plan &p, const RunOpts &o)
         int sig = sigsetjmp(g_jmp, 1);
         if (sig == 0) {
                 g_jmp_armed = 1;
-                watchdog(90); // CPU seconds: the slowest legitimate runs (64 KiB 3DES jobs with SAFE_LOOKUP) need about ten
+                watchdog(60); // CPU seconds: the slowest legitimate runs (64 KiB 3DES jobs with SAFE_LOOKUP) need about ten
                 for (size_t i = 0; i < c.tasks.size(); i++) {
                         if (o.only_task >= 0 && (int) i != o.only_task)
                                 continue;
@@ -1531,7 +1531,7 @@ run_plan(const Plan &p, const RunOpts &o)
                 res.crashed = true;
                 char b[256];
                 if (sig == SIGPROF) {
-                        snprintf(b, sizeof b, "%s did not return within 90 s of CPU time (op %d): the library is spinning", g_callctx.name, c.op_index);
+                        snprintf(b, sizeof b, "%s did not return within 60 s of CPU time (op %d): the library is spinning", g_callctx.name, c.op_index);
                         Violation v;
                         v.prop = p.prop;
                         v.oracle = "hang";
